@@ -14,11 +14,18 @@ using namespace opentelemetry;
 class MapCarrier : public context::propagation::TextMapCarrier
 {
 public:
+  // values are handed out as views onto exact-size heap buffers, so that ASan sees any read past the view
   nostd::string_view Get(nostd::string_view key) const noexcept override
   {
     auto it = h.find(std::string(key));
-    return it == h.end() ? nostd::string_view("") : nostd::string_view(it->second);
+    if (it == h.end()) return nostd::string_view("");
+    char *buf = new char[it->second.size() ? it->second.size() : 1];
+    memcpy(buf, it->second.data(), it->second.size());
+    bufs.push_back(buf);
+    return nostd::string_view(buf, it->second.size());
   }
+  mutable std::vector<char *> bufs;
+  ~MapCarrier() override { for (char *b : bufs) delete[] b; }
   void Set(nostd::string_view key, nostd::string_view value) noexcept override
   {
     h[std::string(key)] = std::string(value);
@@ -127,8 +134,62 @@ static int do_extract(const std::string &hdr)
   return ok ? 0 : 1;
 }
 
+// Directed native search used by refute mode when the verifier's modular proof fails but gives no executable
+// counterexample: near-well-formed headers (every position x interesting bytes, lengths 50..58, blanks, versions).
+static int do_search()
+{
+  const std::string base = "00-0af7651916cd43dd8448eb211c80319c-b9c7c989f97918e1-01";
+  std::vector<std::string> seeds = {base, "01" + base.substr(2), "fe" + base.substr(2), "ff" + base.substr(2), "cc" + base.substr(2) + "-ext",
+                                    "00-00000000000000000000000000000000-b9c7c989f97918e1-01", "00-0af7651916cd43dd8448eb211c80319c-0000000000000000-01",
+                                    "00-0AF7651916CD43DD8448EB211C80319C-B9C7C989F97918E1-0A"};
+  const int bytes[] = {0, 9, 10, 13, ' ', '-', '/', '0', '1', '9', ':', '@', 'A', 'F', 'G', '`', 'a', 'f', 'g', 'z', 0x7f, 0x80, 0xb0, 0xb4, 0xc1, 0xe6, 0xff};
+  std::vector<std::string> cands;
+  for (auto &s : seeds)
+  {
+    cands.push_back(s);
+    for (size_t cut = 0; cut <= 6 && cut < s.size(); cut++) cands.push_back(s.substr(0, s.size() - cut));
+    for (const char *ext : {"-", "x", "-x", "--", "0", " ", "\t", "-00"}) cands.push_back(s + ext);
+    for (const char *ws : {" ", "\t", "  ", "\n"}) { cands.push_back(ws + s); cands.push_back(s + ws); cands.push_back(ws + s + ws); }
+    for (size_t i = 0; i < s.size(); i++)
+      for (int b : bytes)
+      {
+        std::string m = s;
+        m[i]          = char(b);
+        cands.push_back(m);
+      }
+    for (size_t i = 0; i < s.size(); i++) { std::string m = s; m.erase(i, 1); cands.push_back(m); m = s; m.insert(i, 1, '-'); cands.push_back(m); }
+  }
+  cands.push_back("");
+  cands.push_back(" ");
+  cands.push_back("-");
+  cands.push_back("---");
+  size_t n = 0;
+  for (auto &c : cands)
+  {
+    n++;
+    fflush(stdout);
+    FILE *save = stdout;
+    (void)save;
+    // announce the candidate first: if ASan aborts inside Extract the last announced candidate is the input
+    printf("CAND ");
+    for (unsigned char ch : c) printf("%02x", ch);
+    printf("\n");
+    fflush(stdout);
+    if (do_extract(c) != 0)
+    {
+      printf("FOUND ");
+      for (unsigned char ch : c) printf("%02x", ch);
+      printf("\n");
+      return 1;
+    }
+  }
+  printf("searched %zu candidate headers, none violates the oracle\n", n);
+  return 0;
+}
+
 int main(int argc, char **argv)
 {
+  if (argc >= 2 && !strcmp(argv[1], "search")) return do_search();
   if (argc >= 3 && !strcmp(argv[1], "flags")) return do_flags(int(strtol(argv[2], nullptr, 0)));
   if (argc >= 5 && !strcmp(argv[1], "inject")) return do_inject(unhex(argv[2]), unhex(argv[3]), int(strtol(argv[4], nullptr, 16)));
   if (argc >= 3 && !strcmp(argv[1], "extract")) return do_extract(unhex(argv[2]));
